@@ -20,7 +20,9 @@ RULE = (
     "complete enumeration of (module type, entity, field) comparisons between "
     "specs/fileformat.yaml and rv.modules.MODULE_CLASSES (sub-check 'registered'), and "
     "between the spec and classes rendered from the genrv template + the checked-in "
-    "classes (sub-check 'generator'); every comparison is a distinct pair; non-trivial = "
+    "classes (sub-check 'generator'); sub-check 'after_use': the registered metadata is re-compared (fingerprint) after every fixture "
+    "has been loaded/saved and after each Hypothesis-generated use of the library (load, catalogue-driven edits incl. MetaModule count/mapping "
+    "changes, save, reload). Every comparison / generated use is distinct; non-trivial = "
     "every comparison whose spec side is not an absent/None value"
 )
 ASSUMPTIONS = [
@@ -31,11 +33,16 @@ ASSUMPTIONS = [
 
 
 def exhaustive(tier):
-    return True
+    return False  # the static comparisons are complete; the after-use sub-check is generated search
 
 
 def plan(tier):
-    return [{"kind": "registered"}, {"kind": "generator"}, {"kind": "instances"}]
+    descs = [{"kind": "registered"}, {"kind": "generator"}, {"kind": "instances"}]
+    # the metadata must still equal the specification after the library has been used
+    n, per = (6, 40) if tier == "quick" else (12, 400)
+    for i in range(n):
+        descs.append({"kind": "after_use", "examples": per, "focus": [None, "MetaModule", "Sampler"][i % 3]})
+    return descs
 
 
 # ---------------------------------------------------------------------------------------
@@ -357,8 +364,66 @@ def check_instances(ctx):
         cmp.eq(mt.cls_name, "option_values_keys", sorted(inst.option_values), sorted(o.name for o in mt.options))
 
 
+def fingerprint():
+    """Cheap digest of everything check_registered compares (class-level metadata only)."""
+    import rv.modules as m
+
+    out = []
+    for mtype, cls in sorted(m.MODULE_CLASSES.items()):
+        ctls = []
+        for name, c in cls.controllers.items():
+            vt = c.value_type
+            ctls.append((name, c.number, repr(describe_value_type(vt)) if not type(c).__name__.startswith("UserDefined") else "proxy", repr(c.default), bool(c._attached)))
+        opts = [(n, repr(o)) for n, o in sorted(cls.options.items())]
+        out.append((mtype, cls.__name__, getattr(cls, "mgroup", None), getattr(cls, "default_flags", None), getattr(cls, "flags", None), getattr(cls, "options_chnm", None), tuple(ctls), tuple(opts)))
+    return tuple(out)
+
+
+def run_after_use(ctx, desc):
+    """Metamorphic: class metadata is the same before and after any use of the library."""
+    import glob
+
+    from checks import c06
+    from vlib.harness import Ctx, PropertyViolation, run_property
+
+    fp0 = fingerprint()
+
+    def compare(what):
+        if fingerprint() != fp0:
+            c2 = Ctx(ctx.prop, ctx.tier, ctx.seed, 0, 1, [])
+            check_registered(c2)
+            detail = "; ".join(f["detail"] for f in c2.failures[:3]) or "class metadata changed (not a spec'd field)"
+            raise PropertyViolation("C13.after_use.metadata_changed", "after %s the registered metadata no longer equals the specification: %s" % (what, detail), key="C13.after_use.metadata_changed")
+
+    # every fixture loaded and saved once
+    from rv.api import read_sunvox_file
+
+    for f in sorted(glob.glob(os.path.join(REPO, "tests", "files", "**", "*.sun*"), recursive=True)):
+        ctx.case()
+        read_sunvox_file(f).read()
+        compare("loading and saving %s" % os.path.basename(f))
+    ctx.label("after_fixtures")
+
+    def body(case):
+        ctx.case()
+        try:
+            c06.run_case(ctx, case)
+        except PropertyViolation:
+            pass  # C06's own verdicts are C06's business; here only the metadata matters
+        compare("edits %r on a %s" % ([e[:4] for e in case["edits"]], case["src"]))
+        ctx.label("after_generated_use")
+        ctx.mark_nontrivial(case)
+        if len(repr(case)) < 900:
+            ctx.sample({"sub": "after_use", "case": case})
+
+    run_property(ctx, c06.edit_case(focus=desc.get("focus")), body, desc["examples"], tag="after_use", bucket="after_use")
+
+
 def run_shard(ctx, desc):
     k = desc["kind"]
+    if k == "after_use":
+        run_after_use(ctx, desc)
+        return
     if k == "registered":
         check_registered(ctx)
     elif k == "generator":
@@ -367,7 +432,22 @@ def run_shard(ctx, desc):
         check_instances(ctx)
 
 
+def replay_after_use(ctx, doc):
+    from checks import c06
+    from vlib.harness import PropertyViolation
+
+    fp0 = fingerprint()
+    try:
+        c06.run_case(ctx, doc["recipe"]["case"])
+    except PropertyViolation:
+        pass
+    if fingerprint() != fp0:
+        raise PropertyViolation("C13.after_use.metadata_changed", "registered metadata changed by the replayed use")
+
+
 def replay(ctx, doc):
+    if doc["recipe"].get("tag") == "after_use":
+        return replay_after_use(ctx, doc)
     """A saved C13 failure names (sub, entity, field); re-run that sub-check completely
     and fail if that comparison still fails."""
     from vlib.harness import Ctx, PropertyViolation
